@@ -853,4 +853,78 @@ Proof.
       exists new_d. cbn [decode_sections]. rewrite <- (configure_rel _ _ _ Hrel), Hc. cbn [bind]. split; assumption.
 Qed.
 
+
+(* ------------------------------------------------------------------------ *)
+(* whole messages                                                            *)
+(* ------------------------------------------------------------------------ *)
+Definition sec0_of (l : list byte) (x ed : Z) : section :=
+  mkSec 0 (s_params section0) 64 [(Nstart_signature, PBytes l); (Nlength, PUint x); (Nedition, PUint ed)].
+Definition bits0_of (l : list byte) (x ed : Z) : bits :=
+  bits_of_bytes (pad_bytes l 4) ++ to_bits 24 (Z.to_N x) ++ to_bits 8 (Z.to_N ed).
+
+Lemma encode_message_inv ign json m :
+  encode_message ign json = Ok m ->
+  exists l len ed json' e props secs_rest,
+    let nbytes := (Z.of_nat (64 + length e) / 8)%Z in
+    encode_sections ign definitions [1;2;3;4;5;6]%N json' [(Nedition, PUint ed); (Nlength, PUint len)]
+        [sec0_of l len ed] (bits0_of l len ed)
+      = Ok (bits0_of l len ed ++ e, props, [sec0_of l len ed] ++ secs_rest) /\
+    (Z.of_nat (length e) mod 8 = 0)%Z /\ (0 <= nbytes < 2 ^ 24)%Z /\
+    m_bytes m = to_bytes (bits0_of l nbytes ed ++ e) /\
+    m_sections m = sec0_of l nbytes ed :: secs_rest.
+Proof.
+  unfold encode_message, encode_message_with. intros H.
+  apply bind_ok in H as ([[o props] secs] & Hs & H).
+  unfold section_indices in Hs. cbn [encode_sections] in Hs.
+  destruct json as [|vs json']; [discriminate|].
+  change (configure_section definitions [] 0 false false) with (@Ok (option sconfig) (Some section0)) in Hs.
+  cbn [bind] in Hs.
+  destruct (Nat.eqb_spec (length (s_params section0)) (length vs)) as [Hl3|]; [|discriminate]. cbn [negb] in Hs.
+  apply bind_ok in Hs as ([[o1 props1] sec0] & H0 & Hs).
+  apply encode_section0 in H0 as (l & len & ed & -> & -> & -> & -> & Hr); [|symmetry; exact Hl3].
+  change (s_end section0) with false in Hs. cbv iota in Hs.
+  change ([] ++ bits_of_bytes (pad_bytes l 4) ++ to_bits 24 (Z.to_N len) ++ to_bits 8 (Z.to_N ed))
+    with (bits0_of l len ed) in Hs.
+  change ([] ++ [mkSec 0 (s_params section0) 64 [(Nstart_signature, PBytes l); (Nlength, PUint len); (Nedition, PUint ed)]])
+    with [sec0_of l len ed] in Hs.
+  pose proof (encode_sections_ok ign definitions [1;2;3;4;5;6]%N definitions_sl_first _ _ _ _ _ _ _ Hs)
+    as (e & new & -> & -> & Hl & Hm & Hall & Hprops & _).
+  exists l, len, ed, json', e, props, new. cbv zeta. split; [exact Hs|]. split; [exact Hm|].
+  assert (Hno : forall n, (forall c, In c definitions -> s_index c <> 0%N -> has_param n (s_params c) = false) ->
+                          no_param_from definitions [1;2;3;4;5;6]%N n).
+  { intros n Hn c Hc Hi. apply Hn; [exact Hc|]. intros E. rewrite E in Hi. cbn in Hi. intuition discriminate. }
+  rewrite (Hprops Nlength (Hno _ definitions_length_owner)) in H. cbn [prop_get] in H.
+  change (pname_beq Nedition Nlength) with false in H. change (pname_beq Nlength Nlength) with true in H.
+  cbv iota in H.
+  assert (Hown : find_owner Nlength 0 ([sec0_of l len ed] ++ new) None = Some (O, sec0_of l len ed)).
+  { cbn [app find_owner sec0_of sec_params]. change (find_param Nlength (s_params section0)) with (Some (mkP Nlength 24 TUint None true)).
+    cbn [p_prop]. apply find_owner_none. eapply Forall_impl; [|exact Hall].
+    intros s (c & Hc & Hi & _ & Hp). rewrite Hp. apply find_param_has. apply definitions_length_owner; [exact Hc|].
+    intros E. rewrite E in Hi. cbn in Hi. intuition discriminate. }
+  assert (Lb0 : forall x, length (bits0_of l x ed) = 64%nat).
+  { intros x. unfold bits0_of. rewrite !app_length, !length_to_bits, length_bits_of_bytes, length_pad_bytes. reflexivity. }
+  assert (Lo : Z.of_nat (length (bits0_of l len ed ++ e)) = Z.of_nat (64 + length e))
+    by (rewrite app_length, Lb0; reflexivity).
+  rewrite Lo in H.
+  set (nbytes := (Z.of_nat (64 + length e) / 8)%Z) in *.
+  destruct ((len =? 0)%Z || ign) eqn:Eb.
+  - rewrite Hown in H.
+    change (param_offset Nlength (sec_params (sec0_of l len ed))) with (Some 32%Z) in H.
+    change (find_param Nlength (sec_params (sec0_of l len ed))) with (Some (mkP Nlength 24 TUint None true)) in H.
+    cbv iota in H. apply bind_ok in H as (o'' & Hset & H). apply ok_inj in H. subst m.
+    cbn [m_bytes m_sections p_nbits] in Hset |- *.
+    unfold set_uint in Hset. change (24 <=? 0)%Z with false in Hset.
+    destruct (Z.ltb_spec nbytes 0); [discriminate|]. destruct (Z.leb_spec (2 ^ 24) nbytes); [discriminate|].
+    apply ok_inj in Hset. subst o''. split; [lia|]. split.
+    + f_equal. unfold bits0_of. change (0 + Z.to_nat 32)%nat with 32%nat. change (Z.to_nat 24) with 24%nat.
+      assert (L32 : length (bits_of_bytes (pad_bytes l 4)) = 32%nat) by (rewrite length_bits_of_bytes, length_pad_bytes; reflexivity).
+      rewrite <- !app_assoc. rewrite firstn_app_exact by exact L32. f_equal.
+      rewrite (app_assoc (bits_of_bytes (pad_bytes l 4))).
+      rewrite skipn_app_exact by (rewrite app_length, length_to_bits, L32; reflexivity). reflexivity.
+    + cbn [app sec0_of]. rewrite replace_section_head by reflexivity. cbn [sec_index sec_params sec_nbits sec_values set_value].
+      change (pname_beq Nstart_signature Nlength) with false. change (pname_beq Nlength Nlength) with true. reflexivity.
+  - destruct (Z.eqb_spec len nbytes) as [->|]; [|discriminate]. cbn [negb] in H.
+    apply ok_inj in H. subst m. cbn [m_bytes m_sections]. split; [exact Hr|]. split; reflexivity.
+Qed.
+
 End Roundtrip.
